@@ -53,6 +53,15 @@ Fixpoint kargmax_from (best : R) (bi i : Z) (l : list R) : Z :=
   end.
 Definition kargmax (l : list R) : Z := match l with [] => 0%Z | x :: tl => kargmax_from x 0%Z 1%Z tl end.
 
+(* filter_scan(f, init, xs) with a structured carry: carry threaded left to right, outputs collected in order *)
+Fixpoint kfoldmap {C K Y : Type} (f : C -> K -> C * Y) (c : C) (l : list K) : C * list Y :=
+  match l with
+  | [] => (c, [])
+  | k :: tl => let cy := f c k in let r := kfoldmap f (fst cy) tl in (fst r, snd cy :: snd r)
+  end.
+(* jr.split(key, n) for a symbolic n *)
+Definition ksplit_keys (k : kpath) (n : nat) : list kpath := map (fun i => ks k n i) (seq 0 n).
+
 Definition ksum (l : list R) : R := fold_right Rplus 0%R l.
 Definition kmean (l : list R) : R := (ksum l / INR (length l))%R.
 
